@@ -108,6 +108,15 @@ pub struct ErrObs {
     pub ext: Option<B>,
 }
 
+impl ErrObs {
+    /// `self` (what the library reported) is the failure `raised` (what a formatter, handler or
+    /// queue returned): same code and description; the library may have added extended
+    /// information where there was none, but never changed or removed any.
+    pub fn reports(&self, raised: &ErrObs) -> bool {
+        self.code == raised.code && self.msg == raised.msg && (self.ext == raised.ext || raised.ext.is_none())
+    }
+}
+
 impl core::fmt::Debug for ErrObs {
     fn fmt(&self, f: &mut core::fmt::Formatter<'_>) -> core::fmt::Result {
         match &self.ext {
